@@ -374,8 +374,8 @@ theorem compactTask_wf (t : Task) (ht : TaskWf t) : AllWf (compactTask t) := by
   · rw [mem_ite_single he]; exact pickTime_lt ht.lastTitle ht.updatedAt
   · rw [mem_ite_single he]; exact pickTime_lt ht.lastBody ht.updatedAt
   · rw [mem_ite_single he]; exact pickTime_lt ht.lastEpic ht.updatedAt
-  · rw [mem_ite_single he]; exact pickTime_lt ht.lastClaim ht.updatedAt
   · rw [mem_ite_single he]; exact ⟨ht.st, pickTime_lt ht.lastState ht.updatedAt⟩
+  · rw [mem_ite_single he]; exact pickTime_lt ht.lastClaim ht.updatedAt
   · simp only [List.mem_map, List.mem_reverse] at he
     obtain ⟨r, hr, rfl⟩ := he
     exact ht.results r hr
